@@ -3,6 +3,7 @@ length (plus -simulate samples of longer SPL sequences in the thorough tier); ea
 parser (same text => same plan, no hang) and every text that parses is executed over a small stored data set
 (answer or error in bounded time, process alive)."""
 import json
+import re
 import os
 
 import vlib
@@ -41,6 +42,35 @@ def run(chk, binary):
             else:
                 parts.append("%s %s" % (c["cmd"], ", ".join(c["cols"])))
         texts.append({"lang": "spl", "text": " | ".join(parts)})
+    # eval grammar: positional functions x argument values around the boundaries of the stored values
+    beh, r = vlib.tlc_generate("GrammarEval", "Gen_GrammarEval.cfg", timeout=600)
+    chk.add_tlc("GrammarEval", r, "eval r=<positional fn>(column, a [, b]) over 7 integer classes")
+    INTS = [-7, -3, -1, 0, 1, 2, 9]        # stored values: x in 0..4, y = "a b" (2 words), z = "abc" (3 characters)
+    for b in beh:
+        a, bb, col = INTS[b["a"] - 1], (INTS[b["b"] - 1] if b["b"] else None), b["col"]
+        two = lambda pre: "%s%d%s)" % (pre, a, "" if bb is None else ", %d" % bb)
+        fn = b["fn"]
+        if fn == "mvindex_split":
+            e = two('mvindex(split(%s, " "), ' % col)
+        elif fn == "mvindex":
+            e = two("mvindex(%s, " % col)
+        elif fn == "substr":
+            e = two("substr(%s, " % col)
+        elif fn == "round":
+            e = "round(%s, %d)" % (col, a)
+        elif fn == "mvrange":
+            e = "mvrange(%d, %d, %d)" % (a, bb if bb is not None else 3, 1 if a % 2 else 2)
+        elif fn == "mvjoin_split":
+            e = 'mvjoin(mvindex(split(%s, " "), %d%s), "-")' % (col, a, "" if bb is None else ", %d" % bb)
+        elif fn == "replace_idx":
+            e = 'substr(replace(%s, "a", "bb"), %d%s)' % (col, a, "" if bb is None else ", %d" % bb)
+        elif fn == "tonumber_base":
+            e = "tonumber(%s, %d)" % (col, abs(a) + (bb or 0) % 3)
+        elif fn == "pow":
+            e = "pow(%s, %d)" % (col, a)
+        else:
+            e = "substr(ltrim(%s), %d%s)" % (col, a, "" if bb is None else ", %d" % bb)
+        texts.append({"lang": "spl", "text": "* | eval r=%s" % e})
     if not quick:
         beh, r = vlib.tlc_generate("Grammar", "Gen_Grammar_spl_sim.cfg", simulate="num=2000", depth=6, seed=chk.seed, timeout=600)
         chk.add_tlc("Grammar[spl_sim]", r, "sampled longer SPL sequences")
@@ -89,11 +119,14 @@ def run(chk, binary):
         # execute the ones that parse (SPL and SQL over logs; PromQL over metrics)
         dr = vlib.Driver(binary)
         dr.ok("init", dir=d)
-        dr.ok("bulk", body="".join('{"index":{"_index":"a"}}\n{"id":%d,"x":%d,"y":"a b","z":"abc","w":1,"timestamp":%d}\n' % (
-            i, i % 5, 1700000000000 + i * 1000) for i in range(40)))
+        dr.ok("bulk", body="".join('{"index":{"_index":"a"}}\n{"id":%d,"x":%d,"y":"%s","z":"%s","w":1,"timestamp":%d}\n' % (
+            i, i % 5, ["a b", "a", "a b c", ""][i % 4], ["abc", "", "a", "abcdefgh"][i % 4], 1700000000000 + i * 1000) for i in range(40)))
         dr.ok("flush")
         dr.ok("otsdb", body=json.dumps([{"metric": "cpu", "tags": {"a": "b"}, "timestamp": 1700000000 + i * 60, "value": i} for i in range(10)]))
-        todo = valid if not quick else vlib.sample(valid, 400, chk.seed)
+        # the eval-grammar texts are all executed (their point is the execution); the rest is sampled in the quick tier
+        ev = [v for v in valid if " | eval r=" in v["text"]]
+        rest = [v for v in valid if " | eval r=" not in v["text"]]
+        todo = valid if not quick else vlib.sample(rest, 400, chk.seed) + ev
         nexec = 0
         for q in todo:
             try:
@@ -132,6 +165,13 @@ def run(chk, binary):
                 continue
             nexec += 1
             res = r.get("res") or {}
+            if isinstance(res, dict) and str(res.get("qerr", "")).startswith("PANIC"):
+                # the harness recovered a panic of the query's own goroutine; the server has no such recover: the process dies
+                site = ""
+                m = re.search(r"PANIC in query: (.{0,120})", res["qerr"])
+                if m:
+                    site = re.sub(r"[0-9]+", "N", m.group(1))[:80]
+                chk.violation("C17:exec:panic:%s:%s" % (q["lang"], site), "query %r panicked in the query goroutine (the server process would die): %s" % (q["text"], res["qerr"][:400]), q)
             if isinstance(res, dict) and res.get("hang"):
                 chk.violation("C17:exec:hang:" + q["lang"], "query %r neither answered nor failed within 20 s" % q["text"], q)
         chk.cov["grammar"]["executed"] = nexec
